@@ -935,7 +935,8 @@ def expand_module(tree: ast.Module, modname: str) -> Tuple[int, List[str]]:
         return 0, []  # no vocabulary available: expanding everything would change what the rules were written against
     # a module the rules never saw has no anchors: all of its helpers may be expanded
     known = kf.get(modname, set())
-    nc = propagate_new_constants(tree, modname)
+    lm = lower_match(tree)
+    nc = propagate_new_constants(tree, modname) + len(lm)
     te = TableEvaluator(tree)
     nt = te.run() + nc
     if nc:
@@ -1793,4 +1794,121 @@ def attribute_aliases(trees: Dict[str, ast.Module]) -> List[str]:
                 for b in m.body:
                     ast.fix_missing_locations(b)
                 out.append(f"{c.name}.{m.name}: " + ", ".join(f"{k} = self.{v}" for k, v in sorted(amap.items())))
+    return out
+
+
+# ======================================================================================================================
+# `match` statements (the pinned tree has none): the simple forms are the if/elif chains they abbreviate.
+#   case <constant or dotted name>:     subject == value           case None / True / False:   subject is value
+#   case a | b:                         subject == a or subject == b  case Cls():               isinstance(subject, Cls)
+#   case _:                             else                        `if guard` is and-ed
+# Anything else (captures, sequence / mapping patterns, class patterns with sub-patterns) is left alone: the CFG builder then
+# reports the function as not analysable.
+# ======================================================================================================================
+def lower_match(tree: ast.Module) -> List[str]:
+    if not hasattr(ast, "Match"):
+        return []
+    out: List[str] = []
+
+    def test_of(subj, pat):
+        if isinstance(pat, ast.MatchValue):
+            return ast.Compare(left=copy.deepcopy(subj), ops=[ast.Eq()], comparators=[pat.value])
+        if isinstance(pat, ast.MatchSingleton):
+            return ast.Compare(left=copy.deepcopy(subj), ops=[ast.Is()], comparators=[ast.Constant(value=pat.value)])
+        if isinstance(pat, ast.MatchOr):
+            parts = [test_of(subj, p) for p in pat.patterns]
+            if any(p is None for p in parts):
+                return None
+            return ast.BoolOp(op=ast.Or(), values=parts)
+        if isinstance(pat, ast.MatchClass) and not pat.patterns and not pat.kwd_patterns:
+            return ast.Call(func=ast.Name(id="isinstance", ctx=ast.Load()), args=[copy.deepcopy(subj), pat.cls], keywords=[])
+        return None
+
+    class L(ast.NodeTransformer):
+        def visit_Match(self, n):
+            self.generic_visit(n)
+            subj = n.subject
+            pre = []
+            if not _pure(subj):
+                nm = f"_match_subject_{n.lineno}"
+                pre = [ast.copy_location(ast.Assign(targets=[ast.Name(id=nm, ctx=ast.Store())], value=subj), n)]
+                subj = ast.Name(id=nm, ctx=ast.Load())
+            chain = []
+            default = None
+            for c in n.cases:
+                wild = isinstance(c.pattern, ast.MatchAs) and c.pattern.pattern is None and c.pattern.name is None
+                if wild and c.guard is None:
+                    default = c.body
+                    break
+                t = ast.Constant(value=True) if wild else test_of(subj, c.pattern)
+                if t is None:
+                    return n
+                if c.guard is not None:
+                    t = c.guard if wild else ast.BoolOp(op=ast.And(), values=[t, c.guard])
+                chain.append((t, c.body))
+            if not chain:
+                return pre + (default or [ast.Pass()])
+            node = None
+            for t, body in reversed(chain):
+                node = ast.If(test=t, body=body, orelse=([node] if node is not None else (default or [])))
+            ast.copy_location(node, n)
+            out.append(f"match statement at line {n.lineno} read as an if/elif chain")
+            return pre + [node]
+
+    L().visit(tree)
+    if out:
+        ast.fix_missing_locations(tree)
+    return out
+
+
+# ======================================================================================================================
+# Definitions moved to another module and imported back (`class Module` moved to pyrtma/module.py, `from .module import
+# Module` in manager.py): the definition is analysed where the pinned tree had it.  Exact: the import binds the very same
+# object under the same name.
+# ======================================================================================================================
+def undo_moves(trees: Dict[str, ast.Module]) -> List[str]:
+    kf = known_functions()
+    if not kf:
+        return []
+    out: List[str] = []
+    top: Dict[str, Dict[str, ast.stmt]] = {m: {st.name: st for st in t.body if isinstance(st, (ast.ClassDef, ast.FunctionDef))} for m, t in trees.items()}
+    for mod, t in trees.items():
+        known = kf.get(mod, set())
+        if not known:
+            continue
+        want = {q.split(".")[0] for q in known if not q.startswith(("=", "#"))}
+        missing = {w for w in want if w not in top[mod]}
+        if not missing:
+            continue
+        for i, st in enumerate(list(t.body)):
+            if not isinstance(st, ast.ImportFrom) or st.module is None and st.level == 0:
+                continue
+            for al in list(st.names):
+                if al.name not in missing or (al.asname not in (None, al.name)):
+                    continue
+                # resolve the source module
+                base = mod.split(".")
+                if st.level:
+                    base = base[: len(base) - st.level] if not mod.endswith("__init__") else base
+                    src = ".".join(base + ([st.module] if st.module else []))
+                else:
+                    src = st.module
+                if src not in trees or al.name not in top.get(src, {}) or src == mod:
+                    continue
+                # only definitions the source module did not have in the pinned tree are moved back
+                if any(q == al.name or q.startswith(al.name + ".") for q in kf.get(src, set())):
+                    continue
+                node = top[src][al.name]
+                trees[src].body.remove(node)
+                del top[src][al.name]
+                idx = t.body.index(st)
+                t.body.insert(idx + 1, node)
+                top[mod][al.name] = node
+                st.names.remove(al)
+                out.append(f"{al.name}: {src} -> {mod}")
+            if not st.names:
+                t.body.remove(st)
+    for t in trees.values():
+        if not t.body:
+            t.body.append(ast.Pass())
     return out
